@@ -363,6 +363,50 @@ func equalObject(left, right Object) bool {
 		return false
 	}
 
+	switch l := left.(type) {
+	case *BinarySet:
+		// a set has no order: compare the members, not the slices
+		r := right.(*BinarySet)
+		if len(l.Value) != len(r.Value) {
+			return false
+		}
+
+		for _, member := range l.Value {
+			if !containedInBinaryArray(r.Value, member) {
+				return false
+			}
+		}
+
+		return true
+	case *List:
+		r := right.(*List)
+		if len(l.Value) != len(r.Value) {
+			return false
+		}
+
+		for i := range l.Value {
+			if !equalObject(l.Value[i], r.Value[i]) {
+				return false
+			}
+		}
+
+		return true
+	case *Map:
+		r := right.(*Map)
+		if len(l.Value) != len(r.Value) {
+			return false
+		}
+
+		for k, v := range l.Value {
+			other, ok := r.Value[k]
+			if !ok || !equalObject(v, other) {
+				return false
+			}
+		}
+
+		return true
+	}
+
 	return reflect.DeepEqual(left, right)
 }
 
